@@ -155,7 +155,8 @@ impl CSYNC {
         let mut record_types = BTreeSet::new();
 
         for token in tokens {
-            record_types.insert(RecordType::from_str(token)?);
+            // mnemonics are case-insensitive; `RecordType::from_str` expects upper case
+            record_types.insert(RecordType::from_str(&token.to_ascii_uppercase())?);
         }
 
         Ok(Self::new(soa_serial, immediate, soa_minimum, record_types))
